@@ -64,6 +64,21 @@ class Prog:
             self.outs.append(d)
         self.codes = ["OK", "FAIL", "DONE"] + ["FINISH_" + c for c in self.fcodes] + ["YIELD_" + c for c in self.ycodes]
 
+    FIELDS = ("name", "header", "source", "indirect", "eof", "yields", "dynamic", "dyn_str", "on_demand", "hook_global", "hook_state",
+              "u8", "zero_len", "strict_done", "hooks", "fcodes", "ycodes", "nstates", "outs", "codes")
+
+    def to_dict(self):
+        return {k: getattr(self, k) for k in self.FIELDS}
+
+    @classmethod
+    def from_dict(cls, d, tag=None, meta=None):
+        p = cls.__new__(cls)
+        for k in cls.FIELDS:
+            setattr(p, k, d[k])
+        p.tag = tag
+        p.meta = meta or {}
+        return p
+
     def code_name(self, v):
         return self.codes[v] if 0 <= v < len(self.codes) else "?%d" % v
 
@@ -450,6 +465,14 @@ def parse_log(path):
                 cur.events.append(("L", cur.leak))
             elif t == "N":
                 cur.events.append(("N", line[2:].rstrip("\n")))
+            elif t == "W":
+                h = line[2:].rstrip("\n")
+                cur.events.append(("W", [(int(h[i], 16), int(h[i + 1], 16), int(h[i + 2], 16)) for i in range(0, len(h) - 2, 3)]))
+            elif t == "w":
+                cur.events.append(("w", int(line.split()[1])))
+            elif t == "v":
+                _, b, code, adv, state, snap = line.rstrip("\n").split(" ", 5)
+                cur.events.append(("v", int(b), int(code), int(adv), int(state), snap))
     return runs, order
 
 
